@@ -301,14 +301,19 @@ static void slot_fill(Slot &s) {
     }
 }
 
-template <int K, int LEN> static V *mk_leaf(Slot &slot, MN &n) {   // a scalar or a string of LEN units
+template <int K, int LEN> static V *mk_leaf(Slot &slot, MN &n) {   // a scalar or a string of LEN <= 5 units
     slot_fill(slot);
     unsigned sel = vf_u8();
     u64 x = vf_u64();
-    char c[3];
+    char c[6];
     c[0] = char(vf_u8());
     c[1] = char(vf_u8());
-    c[2] = 0;
+    c[2] = 0; c[3] = 0; c[4] = 0; c[5] = 0;
+    if (LEN > 2) {
+        c[2] = char(vf_u8());
+        c[3] = char(vf_u8());
+        c[4] = char(vf_u8());
+    }
     mn_clear(n);
     n.k = T(K);
     void *raw = &slot;
@@ -334,8 +339,7 @@ template <int K, int LEN> static V *mk_leaf(Slot &slot, MN &n) {   // a scalar o
     }
     // String
     n.len = LEN;
-    if (LEN > 0) n.s[0] = c[0];
-    if (LEN > 1) n.s[1] = c[1];
+    for (unsigned i = 0; i < LEN; ++i) n.s[i] = c[i];
     if ((sel & 3) == 0) return new (raw) V((const char *)&c[0], SizeT(LEN));
     if ((sel & 3) == 1) return new (raw) V(ST((const char *)&c[0], SizeT(LEN)));
     if ((sel & 3) == 2) { const ST s((const char *)&c[0], SizeT(LEN)); return new (raw) V(s); }
@@ -452,15 +456,18 @@ extern "C" void h_step() {
 #elif OP == OP_AS_TYPE
     {
         // finding C12-assign-type-no-reset: the old payload is neither released nor cleared
-        const bool clean = (m.n.k != T::String && m.n.k != T::Array && m.n.k != T::ValuePtr && m.n.bits == 0);
-#ifdef KF_EXCL_C12_assign_type_no_reset
-        vf_assume(clean);
-#endif
+        // (predicate: the old value has a payload -- a string, an array, a pointer or a number; concrete per query)
+        const bool clean = (PRE_K == 0 || PRE_K == 8 || PRE_K == 9 || PRE_K == 10);
 #ifdef KF_ONLY_C12_assign_type_no_reset
-        vf_assume(!clean);
+        vf_assume(!clean && (m.n.k == T::String || m.n.k == T::Array || m.n.k == T::ValuePtr || m.n.bits != 0));
 #endif
-        *v = T(SEL);
-        m_clear(m); m.n.k = T(SEL);    // "assignments replace kind and content": an empty value of that kind
+#ifdef KF_EXCL_C12_assign_type_no_reset
+        if (clean)                     // while the finding is open the operation is applied to payload-free values only
+#endif
+        {
+            *v = T(SEL);
+            m_clear(m); m.n.k = T(SEL);    // "assignments replace kind and content": an empty value of that kind
+        }
     }
 #elif OP == OP_AS_STR
     {
@@ -501,6 +508,7 @@ extern "C" void h_step() {
         mn_clear(ae[0]); mn_clear(ae[1]);
         if (AN > 0) { V *x = mk_leaf<5, 1>(s1, ae[0]); a += Memory::Move(*x); x->~V(); }
         if (AN > 1) { V *x = mk_leaf<5, 1>(s2, ae[1]); a += Memory::Move(*x); x->~V(); }
+        if (AN == 0) { a += V(1u); a.Clear(); }      // an empty array (with spare room; see META on default-constructed arrays)
 #if OP == OP_AS_ARR
         if (w & 1) *v = Memory::Move(a); else *v = (const AT &)a;
         m_clear(m); m.n.k = T::Array;
@@ -512,7 +520,7 @@ extern "C" void h_step() {
         for (unsigned i = 0; i < AN; ++i) m_push(m, ae[i]);
 #endif
         if (w & 1) {
-            vf_assert(a.Size() == 0 && a.Storage() == nullptr && a.Capacity() == 0, 302);
+            vf_assert(a.Size() == 0 && a.Storage() == nullptr && a.Capacity() == 0, 302);    // moved-from
         } else {
             vf_assert(a.Size() == AN, 303);
             if (AN > 0) { vf_assert(a.First()->Type() == ae[0].k, 304); a.Storage()[0] = 77u; }
@@ -618,8 +626,20 @@ extern "C" void h_step() {
         v->AddPointerToValue(p);
         m_to_array(m); m_push(m, e);
 #else
+#if SEL == 0
         v->SetPointerToValue(p);
         m_clear(m); m.n = e;
+#else
+        // finding C12-setptr-null: a null pointer clears the payload but leaves the kind tag (a ValuePtr then holds a null
+        // target).  AddPointerToValue(nullptr) shows the intent: the value becomes Undefined.
+#if defined(KF_EXCL_C12_setptr_null)
+        if (PRE_K == 0)
+#endif
+        {
+            v->SetPointerToValue(p);
+            m_clear(m);
+        }
+#endif
 #endif
         obs_doc(*src, sm);
     }
